@@ -22,6 +22,15 @@ Payload sizes are part of the case space: what a kill loses is the user-space bu
         right after EVERY rename are killed / faulted whatever the stride of the tier.  A fault-free trace the
         recogniser rejects (or the model mispredicts) switches its group to stride 1: the verdict fails closed, the
         search for a concrete partial file goes on.
+SHORT WRITES are part of the fault model: write(2) may store fewer bytes than asked and report the count without an
+        error (almost full disk, quota, file-size limit).  Every main / sized / corpus scenario is run once more under a
+        FILE-SIZE LIMIT (RLIMIT_FSIZE in the producer process, SIGXFSZ ignored; C20_FSIZE, vt/harness/c20_producers.py)
+        at the budget classes 0, 1, half, size-1 of its published files: the kernel really cuts the write crossing the
+        limit short and fails the next one with EFBIG (both seen in the strace log: tie).  In a trace a short write is
+        a Write op with the bytes actually stored - recogniser and model need nothing new - but the recogniser cannot
+        know what the program MEANT to write (C20_short_write_unchecked_accepted / _refuted): a producer that ignores
+        the count is found by the reader oracle only.  ModelShort.v / ProofsShort.v: the write-all loop of the io stack
+        publishes exactly the payload or nothing for every sequence of write outcomes.
 The ENVIRONMENT of a producer run is part of "every producer run" as well: how the caller spells the output path
         (absolute / a BARE file name with cwd = the output directory / `./name`) and where $TMPDIR lives (untouched /
         a directory on ANOTHER FILE SYSTEM than the output directory).  Scenarios `name[@N]%flags` (flags rel, dot,
@@ -339,12 +348,14 @@ def one_run(job):
     for inj in job.get("inject", []):
         cmd += ["-e", "inject=" + inj]
     cmd += harness_cmd(producer, scenario, D, job["IN"])
+    if job.get("fsize") is not None:
+        extra["C20_FSIZE"] = str(int(job["fsize"]))
     if job.get("close_fail"):
         n, errno_ = job["close_fail"]
         extra.update({"LD_PRELOAD": job["shim"], "C20_CLOSE_FAIL": "%d:%d:%s" % (n, errno_, D)})
     p = subprocess.run(cmd, cwd=core.VERIF, env=core.impl_env(job["src"], extra), stdout=subprocess.PIPE,
                        stderr=subprocess.STDOUT, timeout=180)
-    res = {"job": {k: job[k] for k in ("producer", "scenario", "old", "inject", "desc", "kind", "close_fail", "pos") if k in job},
+    res = {"job": {k: job[k] for k in ("producer", "scenario", "old", "inject", "desc", "kind", "close_fail", "pos", "fsize") if k in job},
            "rc": p.returncode, "out": p.stdout.decode("utf8", "replace")[-400:]}
     res["shim_fired"] = b"C20SHIM close failed" in p.stdout
     text = open(log, encoding="utf8", errors="surrogateescape").read()
@@ -363,6 +374,19 @@ def one_run(job):
         ab.ops = ["X"]
         ab.unsupported = [res["parse_error"]]
     res["killed"] = bool(killed)
+    # writes to tracked files that the kernel cut short (fewer bytes stored than asked for) or refused with EFBIG
+    res["short_writes"], res["efbig"] = 0, 0
+    for i, nm, _k in ab.relevant:
+        ev = events[i]
+        if nm in ("write", "pwrite64"):
+            try:
+                asked = int(ev["args"][2])
+            except (IndexError, ValueError, TypeError):
+                continue
+            if ev["err"] == "EFBIG":
+                res["efbig"] += 1
+            elif ev["ret"] is not None and 0 <= ev["ret"] < asked:
+                res["short_writes"] += 1
     res["relevant"] = [(i, nm, k, events[i]["unfinished"], events[i]["injected"]) for i, nm, k in ab.relevant]
     res["unsupported"] = ab.unsupported[:5]
     res["n_ops"] = len(ab.ops)
@@ -410,7 +434,8 @@ def one_run(job):
         data = after.get(fpath)
         old = old_version(fn) if job["old"] and base_scenario(scenario) != "nodir" else None
         why = reader_check(fn, data, old, job["versions"].get(fn, []),
-                           fault=bool(job.get("close_fail")) or any("error=" in x for x in job.get("inject", [])))
+                           fault=bool(job.get("close_fail")) or any("error=" in x for x in job.get("inject", [])) or
+                           job.get("fsize") is not None)
         res["reader"][fn] = why
         res["state"][fn] = ("absent" if data is None else "old" if data == old else
                             "new%d" % job["versions"][fn].index(data) if data in job["versions"].get(fn, []) else "OTHER")
@@ -568,7 +593,12 @@ def check(run):
                 "raises).  Injections: none; SIGKILL at EVERY tracked syscall (strace inject=<syscall>:signal=KILL:when=k); "
                 "ENOSPC and EIO at every tracked openat/write/close/rename/unlink/mkdir (thorough: also lseek; ENOSPC also "
                 "persistent from that position on; and SIGKILL at every later tracked syscall of another name after a "
-                "fault).  Payload sizes: each main scenario also as `name@N` with N not a multiple of the io buffer / download "
+                "fault).  SHORT WRITES: every main / sized / corpus scenario with a previous version (thorough: every scenario, with "
+                "and without) once more under a FILE-SIZE LIMIT (RLIMIT_FSIZE set in the producer process right before the producer "
+                "is called, SIGXFSZ ignored): write(2) then stores only what fits below the limit and returns the short count, the "
+                "next write fails with EFBIG - the behaviour of an almost full disk / exhausted quota; budgets per published file "
+                "from the sizes of its complete versions: 0, 1, half, size-1 of the smallest and the largest (thorough: of every "
+                "version, plus size, size+1, io buffer +-1, random).  Payload sizes: each main scenario also as `name@N` with N not a multiple of the io buffer / download "
                 "chunk (below one buffer, buffer+-1, k*chunk+r with r<buffer and r>buffer, random; thorough: also the exact "
                 "multiples); the kill/fault positions right before and after every rename are taken whatever the stride.  "
                 "Environments: the main scenario of EVERY producer also as `name%flags`: output path given as a bare file "
@@ -588,7 +618,9 @@ def check(run):
         "the destination + unlink; mkstemp(dir='') = current directory, dir=None = $TMPDIR; sendfile modelled as writes",
         "hand-written FsTrace model of openat/write/pwrite/lseek/ftruncate/close/rename/unlink (coq/C20/FsTrace.v); "
         "tie = predicted bytes of every tracked path vs the disk after each (killed) run",
-        "Linux: rename(2) replaces the target atomically; a SIGKILLed process loses exactly its user-space buffers",
+        "Linux: rename(2) replaces the target atomically; a SIGKILLed process loses exactly its user-space buffers; under "
+        "RLIMIT_FSIZE with SIGXFSZ ignored a write crossing the limit is cut short and a write at the limit fails with EFBIG "
+        "(observed in every such run: tie `file-size limit ...`)",
         "Model.bw_ops: write policy of CPython's BufferedWriter (fits -> keep; else flush, >= capacity -> write through); "
         "only the C20_buffered_*/C20_early_rename_* theorems depend on it, for every capacity and chunking",
         "vt/harness/c20_closefail.c (LD_PRELOAD): close() failing the Linux way; EXDEV between two directories only "
@@ -688,8 +720,8 @@ def check(run):
                    all(vers[(p, PRODUCERS[p]["main"])][fn] for p in PRODUCERS for fn in PRODUCERS[p]["finals"]),
                    "; ".join("%s/%s: %s" % (p, s, {k: len(v) for k, v in d.items()}) for (p, s), d in vers.items()))
 
-    def job(g, inject, kind, desc, close_fail=None, pos=-1):
-        return {"src": src, "exe": exe, "shim": shim, "base": base, "n": nxt(), "producer": g["producer"],
+    def job(g, inject, kind, desc, close_fail=None, pos=-1, fsize=None):
+        return {"fsize": fsize, "src": src, "exe": exe, "shim": shim, "base": base, "n": nxt(), "producer": g["producer"],
                 "scenario": g["scenario"], "old": g["old"], "IN": IN, "inject": inject, "close_fail": close_fail,
                 "versions": vers[(g["producer"], base_scenario(g["scenario"]))], "kind": kind, "desc": desc,
                 "xroot": xroot, "pos": pos}
@@ -754,7 +786,44 @@ def check(run):
                         futs.append((g, j, fut))
                         fault_jobs.append((g, j, name, jb, fut))
                         planned["fault"] += 1
+    # --- phase C': SHORT WRITES.  Every selected group once more under a file-size limit (RLIMIT_FSIZE in the producer
+    # process from the moment the producer is called, SIGXFSZ ignored): the kernel stores what still fits and returns
+    # the short count, the next write fails with EFBIG.  Budget classes per published file, taken from the sizes of
+    # its complete versions: 0, 1, half, size-1 (thorough: every version size s: s/2, s-1, s, s+1; the io buffer
+    # +-1; random budgets).
+    fsize_futs = []
+    fsize_budgets = {}
+    for g, r in base_runs:
+        if scenario_flags(g["scenario"]) and not (tier == "thorough" and g.get("env") == "rel+xdev" and g["old"]):
+            continue          # environments: only the adversarial one (bare name, $TMPDIR elsewhere), thorough tier
+        if tier != "thorough" and not (g["old"] and (g["main"] or g.get("size") is not None or g.get("corpus"))):
+            continue
+        vs = vers[(g["producer"], base_scenario(g["scenario"]))]
+        budgets = {0, 1}
+        for fn, lst in vs.items():
+            szs = sorted({len(v) for v in lst})
+            if not szs:
+                continue
+            for s_ in (szs if tier == "thorough" else {szs[0], szs[-1]}):
+                budgets |= {s_ // 2, max(0, s_ - 1)}
+                if tier == "thorough":
+                    budgets |= {s_, s_ + 1}
+            if tier == "thorough":
+                budgets |= {b for b in (B - 1, B, B + 1, io_default, io_default + 1) if b < szs[-1]}
+                budgets |= {fork.randrange(1, szs[-1] + 1) for _ in range(3)}
+        top = max([len(v) for lst in vs.values() for v in lst] or [0])
+        fsize_budgets["%s/%s/%s" % (g["producer"], g["scenario"], "old" if g["old"] else "fresh")] = sorted(budgets)
+        for b in sorted(budgets):
+            fsize_futs.append((g, b, top, pool.submit(one_run, job(g, [], "fsize", "FSIZE=%d" % b, fsize=b, pos=b))))
+    planned["fsize"] = len(fsize_futs)
     misaligned = []
+    no_short = []
+    for g, b, top, f in fsize_futs:
+        r = f.result()
+        results.append(r)
+        if b < top and not (r["short_writes"] or r["efbig"]):
+            no_short.append("%s/%s old=%s FSIZE=%d: no short write / EFBIG on a tracked file (largest complete version %d bytes)" % (
+                g["producer"], g["scenario"], g["old"], b, top))
     for g, j, f in futs:
         r = f.result()
         results.append(r)
@@ -823,7 +892,8 @@ def check(run):
                                                                 "old" if jb["old"] else "fresh", jb["desc"]),
                         what="after %s a reader of %s finds a file that %s" % (jb["desc"], fn, why),
                         replay={"producer": jb["producer"], "scenario": jb["scenario"], "old": jb["old"],
-                                "inject": jb["inject"], "close_fail": jb.get("close_fail"), "desc": jb["desc"], "final": fn,
+                                "inject": jb["inject"], "close_fail": jb.get("close_fail"), "fsize": jb.get("fsize"),
+                                "desc": jb["desc"], "final": fn,
                                 "kind": jb["kind"], "pos": jb.get("pos", -1), "state": r["state"].get(fn),
                                 "xdev": r.get("xdev")})
         if jb["kind"] in ("none", "kill", "fault") and len(run.samples) < 6 and (jb["kind"] != "none" or len(run.samples) < 2):
@@ -836,7 +906,7 @@ def check(run):
     def simplicity(h):
         rp = h["replay"]
         n = scenario_size(rp["scenario"])
-        return ({"kill": 0, "fault": 1}.get(rp.get("kind"), 2), 0 if n is None else 1, n or 0, rp.get("pos", -1),
+        return ({"kill": 0, "fault": 1, "fsize": 1}.get(rp.get("kind"), 2), 0 if n is None else 1, n or 0, rp.get("pos", -1),
                 len(scenario_flags(rp["scenario"])))
     run.hits.sort(key=simplicity)
     summ = {}
@@ -851,6 +921,11 @@ def check(run):
             n_traces, model_dis)
     run.tie("injection hit the intended tracked syscall (kill: trace = prefix up to it)", planned["kill"] + planned["fault"],
             misaligned)
+    run.tie("file-size limit below the largest complete version: the kernel cut a write to a tracked file short or refused it with "
+            "EFBIG (the short-write fault really happened)", planned["fsize"], no_short)
+    dist["fsize_budgets"] = fsize_budgets
+    dist["short_write_runs"] = sum(1 for r in results if r["job"].get("kind") == "fsize" and r["short_writes"])
+    dist["efbig_runs"] = sum(1 for r in results if r["job"].get("kind") == "fsize" and r["efbig"])
     dist["planned"] = planned
     dist["kill_positions_forced_around_renames"] = forced_n
     dist["groups_switched_to_stride_1"] = upgraded
@@ -905,12 +980,14 @@ def replay(obj):
     try:
         r = one_run({"src": src, "exe": exe, "shim": build_shim(), "base": base, "n": 2, "producer": rp["producer"],
                      "scenario": rp["scenario"], "old": rp["old"], "IN": IN, "inject": rp["inject"],
-                     "close_fail": rp.get("close_fail"), "versions": vers, "kind": "replay", "desc": rp["desc"],
+                     "close_fail": rp.get("close_fail"), "fsize": rp.get("fsize"), "versions": vers, "kind": "replay",
+                     "desc": rp["desc"],
                      "xroot": xroot})
     finally:
         if xroot:
             shutil.rmtree(xroot, ignore_errors=True)
-    print(json.dumps({k: r[k] for k in ("rc", "killed", "accept", "reader", "state", "model_diff", "unsupported", "xdev")},
+    print(json.dumps({k: r[k] for k in ("rc", "killed", "accept", "reader", "state", "model_diff", "unsupported", "xdev",
+                                        "short_writes", "efbig")},
                      indent=1))
     bad = any(r["reader"].values())
     print("REPRODUCED" if bad else "not reproduced")
